@@ -3,6 +3,7 @@ import SSV.Proofs.RelayStep
 import SSV.Proofs.RelayReply
 import SSV.Proofs.RelayProgress
 import SSV.Proofs.RelayBatch
+import SSV.Proofs.RelayFair2
 /-
 C11 — property theorems (model: SSV/Model/Relay.lean; invariants: SSV/Proofs/Relay.lean).
 
@@ -140,6 +141,47 @@ theorem enqueued_head_leaves_partial (cfg : Config) (st : State) (sid : Nat) (s 
 example : ∃ (st : State) (s : Sess), st.sess 0 = some s ∧ s.started = true ∧ s.pc = .idle ∧ s.queue = [⟨.dom 7 53, 100⟩] :=
   ⟨run ⟨4, true, true, false, none, fun s => s⟩ State.init [.recv 1 1 (some ⟨.dom 7 53, 100⟩), .initOk 0], _, rfl, rfl, rfl, rfl⟩
 
+/-- Gen side condition: the COMPLETE list of places where the uplink and receive loops of both relays (generic and
+mmsg) give a packet buffer back, classified. Uplinks: only after a failed `PackInPlace` and after the write. -/
+theorem code_drop_rules : codeDropRulesOK = true := by decide
+
+/-- the uplink of a started session is never stuck while anything is pending: one of its own steps (or an answer /
+failure of the resolver) is enabled -/
+theorem uplink_never_stuck (st : State) (sid : Nat) (s : Sess) (hs : st.sess sid = some s) (hst : s.started = true)
+    (hw : 0 < work s) : ∃ a, enabledUpB st sid a = true :=
+  Relay.never_stuck st sid s hs hst hw
+
+/-- **Progress under fairness.** Fairness is the explicit hypothesis `hfair`: in the rest of the run — ANY interleaving
+with the receive loop, other sessions, downlinks, evictions — the uplink goroutine of `sid` is scheduled for at least
+`work s` of its enabled steps (a `resolved` step = the resolver eventually answers or fails; by `uplink_never_stuck`
+such a step is always available while something is pending). Then every packet that was pending in the session at
+that point (the one inside `PackInPlace` and the whole send queue) has LEFT the uplink, in FIFO order: the session's
+fate log continues exactly with these packets. Each fate is one of the documented ones (`Fate`: sent / resolver
+failed / pack failed / session never started; `code_drop_rules` ties the list to the source), a `sent` fate is a
+datagram of `sent` (`fate_sent_is_sent`, hence to the named destination by `no_cross_session_send`); a packet that
+is NOT accepted into the queue is logged in `qdrop` (queue full) by `recv`. Nothing is lost for any other reason. -/
+theorem accepted_packets_sent_or_documented_drop (cfg : Config) (pre acts : List Act) (sid : Nat) (s : Sess)
+    (hs : (run cfg State.init pre).sess sid = some s)
+    (hfair : work s ≤ upTurns cfg sid (run cfg State.init pre) acts) :
+    ∃ Z, fateOf (run cfg (run cfg State.init pre) acts) sid = fateOf (run cfg State.init pre) sid ++ pend s ++ Z :=
+  Relay.pending_get_fates pre acts sid s hs hfair
+
+/-- conservation + FIFO in every reachable state: the packets accepted into a session's queue are, in order, exactly
+those that already have a fate, then the one in flight, then the queue — nothing disappears, nothing is reordered -/
+theorem queue_conservation_fifo (cfg : Config) (acts : List Act) (sid : Nat) (s : Sess)
+    (hs : (run cfg State.init acts).sess sid = some s) :
+    enqOf (run cfg State.init acts) sid = fateOf (run cfg State.init acts) sid ++ pend s :=
+  (Relay.finv_run acts Relay.finv_init).fifo sid s hs
+
+theorem fate_sent_is_sent (cfg : Config) (acts : List Act) :
+    ∀ e ∈ (run cfg State.init acts).fate, ∀ ip port, e.2.2 = .sent ip port →
+      (⟨e.1, e.2.1, ip, port⟩ : Sent) ∈ (run cfg State.init acts).sent :=
+  (Relay.finv_run acts Relay.finv_init).sentLog
+
+example : upTurns ⟨4, true, true, false, none, fun s => s⟩ 0
+    (run ⟨4, true, true, false, none, fun s => s⟩ State.init [.recv 1 1 (some ⟨.dom 7 53, 100⟩), .initOk 0])
+    [.take 0, .recv 2 2 (some ⟨.ip 9 53, 101⟩), .resolved 0 none] = 2 := by decide
+
 /-- Gen side condition for the four recvmmsg/sendmmsg relay loops (NAT + session, uplink + downlink): every
 send-side vector is filled at the kept-counter, the counter is declared per batch and incremented once after the
 fills, the slice handed to `WriteMsgs` ends at the counter, message `i` points at slot `i`, a downlink reads message
@@ -191,6 +233,11 @@ end SSV.C11
 #print axioms SSV.C11.replies_to_owner_code
 #print axioms SSV.C11.ss2022_follows_address
 #print axioms SSV.C11.enqueued_head_leaves_partial
+#print axioms SSV.C11.code_drop_rules
+#print axioms SSV.C11.uplink_never_stuck
+#print axioms SSV.C11.accepted_packets_sent_or_documented_drop
+#print axioms SSV.C11.queue_conservation_fifo
+#print axioms SSV.C11.fate_sent_is_sent
 #print axioms SSV.C11.code_batch_facts
 #print axioms SSV.C11.batch_sends_exactly_kept
 #print axioms SSV.C11.batch_sends_exactly_kept_code
